@@ -413,4 +413,66 @@ def goodJailSeg (s : Seg) : Bool :=
 /-- path part of the `.base` of a transport reached by cloning: `a/b/` ("" for the root) -/
 def cloneBase (stk : List Seg) : Bytes := if stk = [] then [] else stkPath stk ++ [SL]
 
+/-! ## the jail state while several connections are served (`request.jail_info`)
+
+`SmartTCPServer` serves every connection in its own thread.  `setup_jail` / `teardown_jail`
+(run around every call into request-handler code) write `jail_info.transports`, and
+`_pre_open_hook` reads it.  `jail_info` is a `threading.local`: one slot per thread
+(`JailTL`).  `runShared` is the variant with one slot for the whole process. -/
+
+abbrev Tid := Nat
+
+inductive JOp where
+  /-- `setup_jail()` on thread `t`: `jail_info.transports = [jail_root]` (bases of the allowed transports) -/
+  | setup (t : Tid) (roots : List Bytes)
+  /-- `teardown_jail()` on thread `t`: `jail_info.transports = None` -/
+  | teardown (t : Tid)
+  /-- `ControlDir.open…` on thread `t`: the pre_open hook is run on a transport with this `.base` -/
+  | open_ (t : Tid) (url : Bytes)
+  deriving DecidableEq, Repr
+
+def JOp.tid : JOp → Tid
+  | .setup t _ => t
+  | .teardown t => t
+  | .open_ t _ => t
+
+/-- a write to this thread's own slot -/
+def JOp.writes : JOp → Bool
+  | .open_ .. => false
+  | _ => true
+
+/-- `threading.local`: every thread has its own `transports` (None until it sets it) -/
+abbrev JailTL := Tid → Option (List Bytes)
+
+def JailTL.init : JailTL := fun _ => none
+
+def JailTL.set (st : JailTL) (t : Tid) (v : Option (List Bytes)) : JailTL :=
+  fun u => if u = t then v else st u
+
+def JailTL.step (st : JailTL) : JOp → JailTL
+  | .setup t roots => st.set t (some roots)
+  | .teardown t => st.set t none
+  | .open_ .. => st
+
+def JailTL.final (st : JailTL) : List JOp → JailTL
+  | [] => st
+  | op :: ops => JailTL.final (st.step op) ops
+
+/-- for every open in the trace: (thread, did the hook let it through) -/
+def runTL (st : JailTL) : List JOp → List (Tid × Bool)
+  | [] => []
+  | .open_ t url :: ops => (t, jailAllows (st t) url) :: runTL st ops
+  | op :: ops => runTL (st.step op) ops
+
+/-- one slot shared by all threads (a plain module-level object) -/
+def sharedStep (st : Option (List Bytes)) : JOp → Option (List Bytes)
+  | .setup _ roots => some roots
+  | .teardown _ => none
+  | .open_ .. => st
+
+def runShared (st : Option (List Bytes)) : List JOp → List (Tid × Bool)
+  | [] => []
+  | .open_ t url :: ops => (t, jailAllows st url) :: runShared st ops
+  | op :: ops => runShared (sharedStep st op) ops
+
 end BreezyVerif.C31
